@@ -154,7 +154,7 @@ func newSwitch() *p2p.Switch {
 // Receive wrapper
 
 const (
-	receiveWait = 20 * time.Second
+	receiveWait = probeWait
 	allocFactor = 16
 	allocSlack  = 1 << 20 // fixed slack: bookkeeping, logging arguments, background routines of the node
 )
@@ -175,6 +175,7 @@ type recvOutcome struct {
 // the TotalAlloc delta is attributable), with a generous watchdog: a Receive that is still BLOCKED after 20 s is a
 // wedge (violation), one that is still running is infrastructure trouble.
 func deliver(t failer, sw *p2p.Switch, r receiver, ch byte, p *hpeer, b []byte, what string) recvOutcome {
+	cal.reset()
 	done := make(chan recvOutcome, 1)
 	var gid int64
 	go func() {
@@ -198,19 +199,15 @@ func deliver(t failer, sw *p2p.Switch, r receiver, ch byte, p *hpeer, b []byte, 
 		runtime.ReadMemStats(&m0)
 		r.Receive(ch, p, b)
 	}()
-	timer := time.NewTimer(receiveWait)
+	wait := bound()
+	timer := time.NewTimer(wait)
 	defer timer.Stop()
 	select {
 	case out := <-done:
 		out.dropped = !p.BaseService.IsRunning()
 		return out
 	case <-timer.C:
-		state, stack := goroutineState(atomic.LoadInt64(&gid))
-		if state == "running" || state == "runnable" || state == "" {
-			t.Fatalf("VERIF-INFRA: Receive(%s) still %q after %v", what, state, receiveWait)
-		}
-		t.Fatalf("node wedged: Receive(%s) has been blocked [%s] for %v — the peer's receive routine (and with it this reactor's input) is stuck:\n%s",
-			what, state, receiveWait, stack)
+		stallVerdict(t, fmt.Sprintf("Receive(%s) — the peer's receive routine, and with it this reactor's input,", what), atomic.LoadInt64(&gid), wait)
 	}
 	return recvOutcome{}
 }
